@@ -626,4 +626,16 @@ theorem Di.tryConnect_twice' (s : Store K E) (u v : K) (e e' : E) :
     have : vals ((connect s u v e).get u).out v ≠ [] := by
       rw [hc]; simp [vals]
     rw [if_pos this]
+
+/-- undirected: a second `try_connect` for the same pair is refused and changes nothing -/
+theorem Un.tryConnect_twice' (s : Store K E) (u v : K) (e e' : E) :
+    Un.tryConnect (Un.tryConnect s u v e).1 u v e' = ((Un.tryConnect s u v e).1, .exists_) := by
+  rw [Un.tryConnect_spec' s u v e]
+  by_cases h : vals (unAdj s u) v ≠ []
+  · rw [if_pos h, Un.tryConnect_spec', if_pos h]
+  · rw [if_neg h, Un.tryConnect_spec']
+    have hc := (connect_spec' s u v e u).1
+    have : vals (unAdj (connect s u v e) u) v ≠ [] := by
+      simp only [unAdj, vals_append]; rw [hc]; simp [vals]
+    rw [if_pos this]
 end G
